@@ -152,55 +152,59 @@ def run_case(ns, ctx, case):
         return target in reach(start)
 
     root = new_module()
-    # ---------------- build
-    for _ in range(case["n_build"]):
-        r = rng.random()
-        host_candidates = [m for m in model if model[m].kind in ("box", "seq")]
-        host = host_candidates[int(rng.integers(len(host_candidates)))]
-        name = ["a", "b", "c", "w", "layer"][int(rng.integers(5))]
-        via = "setattr" if rng.random() < 0.7 else "register"
-        if r < 0.30:
-            pid = new_param() if (rng.random() < 0.75 or not params) else int(rng.integers(len(params)))
-            if pid < len(params) - 1:
-                features.add("shared-parameter")
-            assign(host, name, "P", pid, via)
-        elif r < 0.60:
-            if rng.random() < 0.75 or len(mods) < 2:
-                child = new_module()
-            else:
-                child = int(rng.integers(len(mods)))
-                if child == host or has_cycle_to(host, child):
-                    continue
-                features.add("shared-module")
-            assign(host, name, "M", child, via)
-        elif r < 0.75:
-            k = int(rng.integers(0, 4))
-            kids = []
-            for _ in range(k):
-                if rng.random() < 0.3 and len(mods) > 1:
-                    c = int(rng.integers(len(mods)))
-                    if c == host or has_cycle_to(host, c) or model[c].kind == "seq":
-                        c = new_module("tag")
-                    else:
-                        features.add("shared-module")
-                else:
-                    c = new_module("tag" if rng.random() < 0.6 else "box")
-                    if rng.random() < 0.5 and model[c].kind == "box":
-                        assign(c, "w", "P", new_param(), "setattr")
-                kids.append(c)
-            named = bool(rng.random() < 0.4)
-            if len(set(kids)) < len(kids) and named:
-                named = False
-            s = new_sequential(kids, named)
-            features.add("sequential" + ("-empty" if k == 0 else ("-named" if named else "")))
-            trail.append(f"m{s} = Sequential({kids}, named={named})")
-            assign(host, name, "M", s, via)
-        elif r < 0.90:
-            if model[host].reg:
-                nm = list(model[host].reg)[int(rng.integers(len(model[host].reg)))]
-                unassign(host, nm, [None, 3.5, "text"][int(rng.integers(3))])
-        else:
-            unassign(host, name, None)
+    # ---------------- build (in two phases: the tree is observed in between, then changed again)
+    phase_break = int(rng.integers(1, max(2, case["n_build"])))
+
+    def build_steps(lo, hi):
+      for step_ in range(lo, hi):
+          r = rng.random()
+          host_candidates = [m for m in model if model[m].kind in ("box", "seq")]
+          host = host_candidates[int(rng.integers(len(host_candidates)))]
+          name = ["a", "b", "c", "w", "layer"][int(rng.integers(5))]
+          via = "setattr" if rng.random() < 0.7 else "register"
+          if r < 0.30:
+              pid = new_param() if (rng.random() < 0.75 or not params) else int(rng.integers(len(params)))
+              if pid < len(params) - 1:
+                  features.add("shared-parameter")
+              assign(host, name, "P", pid, via)
+          elif r < 0.60:
+              if rng.random() < 0.75 or len(mods) < 2:
+                  child = new_module()
+              else:
+                  child = int(rng.integers(len(mods)))
+                  if child == host or has_cycle_to(host, child):
+                      continue
+                  features.add("shared-module")
+              assign(host, name, "M", child, via)
+          elif r < 0.75:
+              k = int(rng.integers(0, 4))
+              kids = []
+              for _ in range(k):
+                  if rng.random() < 0.3 and len(mods) > 1:
+                      c = int(rng.integers(len(mods)))
+                      if c == host or has_cycle_to(host, c) or model[c].kind == "seq":
+                          c = new_module("tag")
+                      else:
+                          features.add("shared-module")
+                  else:
+                      c = new_module("tag" if rng.random() < 0.6 else "box")
+                      if rng.random() < 0.5 and model[c].kind == "box":
+                          assign(c, "w", "P", new_param(), "setattr")
+                  kids.append(c)
+              named = bool(rng.random() < 0.4)
+              if len(set(kids)) < len(kids) and named:
+                  named = False
+              s = new_sequential(kids, named)
+              features.add("sequential" + ("-empty" if k == 0 else ("-named" if named else "")))
+              trail.append(f"m{s} = Sequential({kids}, named={named})")
+              assign(host, name, "M", s, via)
+          elif r < 0.90:
+              if model[host].reg:
+                  nm = list(model[host].reg)[int(rng.integers(len(model[host].reg)))]
+                  unassign(host, nm, [None, 3.5, "text"][int(rng.integers(3))])
+          else:
+              unassign(host, name, None)
+
 
     depth = 0
 
@@ -210,10 +214,12 @@ def run_case(ns, ctx, case):
         for nm, (k, o) in model[m].reg.items():
             if k == "M" and o not in seen:
                 dep(o, d + 1, seen | {o})
-    dep(root, 0, {root})
 
     # ---------------- observe
     def observe(after):
+        return _observe(after)
+
+    def _observe(after):
         for mid in reach(root):
             real = mods[mid]
             counters["observations"] = counters.get("observations", 0) + 1
@@ -269,6 +275,11 @@ def run_case(ns, ctx, case):
             if state != pm["grad"] and not (pm["grad"] == "zero" and state is None):      # a cleared gradient may be zeros or absent
                 viol.append(V("zero_grad:reach", f"parameter P{pid} gradient state {state}, expected {pm['grad']} after {after}", trail=trail)); return
 
+    build_steps(0, phase_break)
+    observe("mid-construction")
+    build_steps(phase_break, case["n_build"])
+    features.add("structure-changed-after-observation")
+    dep(root, 0, {root})
     observe("construction")
     # ---------------- actions
     acts = []
